@@ -23,11 +23,13 @@ if not _PROGRAM_PATH.exists():
 
 
 def check_sid_folder_exist(sid: str):
-    return _PROGRAM_PATH.joinpath(sid).exists()
+    # service_meta is written last (and atomically) when a configuration is accepted: a directory without it
+    # is the remains of an interrupted configuration upload, i.e. the service is still not configured
+    return _PROGRAM_PATH.joinpath(sid).joinpath("service_meta").exists()
 
 
 def create_sid_folder(sid: str):
-    _PROGRAM_PATH.joinpath(sid).mkdir()
+    _PROGRAM_PATH.joinpath(sid).mkdir(exist_ok=True)
 
 
 def delete_sid_folder(sid: str):
